@@ -78,6 +78,19 @@ static bool check4(P a, P b, P c, P d, CaseResult &res) {
         bool seen2 = true;
         bool r2 = Avoid::segmentShapeIntersect(A, B, C, D, seen2);
         if (r2 != (proper || touchA || touchB)) res.violate("segmentShapeIntersect:second-touch", w("segmentShapeIntersect result (flag already set)", r2, proper || touchA || touchB));
+        if (!seen2) res.violate("segmentShapeIntersect:flag-cleared", w("seenIntersectionAtEndpoint after a call that started with it set (it is only ever set, never cleared)", seen2, 1));
+        {   // the way the router uses it: one flag carried round all edges of a shape.  Triangle (c, d, a): blocked iff some edge is properly
+            // crossed or the segment a-b... (kept simple: replay the loop against the single-edge reference semantics above)
+            P tri[3] = {c, d, a}; bool flag = false, blocked = false, wantFlag = false, wantBlocked = false;
+            for (int e = 0; e < 3 && !blocked; e++) { P s1 = tri[e], s2 = tri[(e + 1) % 3]; blocked = Avoid::segmentShapeIntersect(A, B, pt(s1), pt(s2), flag); }
+            for (int e = 0; e < 3 && !wantBlocked; e++) {
+                P s1 = tri[e], s2 = tri[(e + 1) % 3];
+                int s_a = sg(cr(s1, s2, a)), s_b = sg(cr(s1, s2, b)); bool prop = sg(cr(a, b, s1)) * sg(cr(a, b, s2)) < 0 && s_a * s_b < 0;
+                bool tA = (eq(s2, a) || onOpen(s1, s2, a)) && s_b != 0, tB = (eq(s2, b) || onOpen(s1, s2, b)) && s_a != 0;
+                if (prop) wantBlocked = true; else if (tA || tB) { if (wantFlag) wantBlocked = true; wantFlag = true; }
+            }
+            if (blocked != wantBlocked) res.violate("segmentShapeIntersect:carried-flag-over-shape-edges", w("blocked verdict when one flag is carried over the edges of triangle (c,d,a)", blocked, wantBlocked));
+        }
     }
     // segmentIntersectPoint
     {
